@@ -38,7 +38,7 @@ func init() {
 	if tier == "thorough" {
 		n = 600
 	}
-	known := regexp.MustCompile(`^C09 (F15-empty-rendition-part:|Fxx-leading-rendition-attrs:|Fxx-rendition-date-time:|Fxx-target-duration-zero:)`)
+	known := regexp.MustCompile(`^C09 (F15-empty-rendition-part:|Fxx-leading-rendition-attrs:|Fxx-rendition-date-time:|Fxx-target-duration-zero:|Fxx-ts-zero-crossing:)`)
 	var mu sync.Mutex
 	tags := map[string]int{}
 	var fails []string
